@@ -67,13 +67,33 @@ def harness(job, trace=True, timeout=1500):
     return res
 
 
-def validate(tag, trace_text, tagged):
+VARIANT = {}
+
+
+def validate(tag, trace_text, tagged, first_try_both=True):
     """TLC trace validation of one recorded run; returns (TLCResult, oracle lines)."""
     evs = [json.loads(l) for l in trace_text.splitlines() if l.strip()]
     files = sorted({e['nm']['f'] for e in evs if e['ev'] == 'sys' and e['nm']['k'] == 'data'})
-    cfg = mc_cfg(batches=50, merges=50, files=files or ['meta.bin'], required=['meta.bin', 'primary.bin', 'timestamps.bin', 'fv.bin'],
-                 tt=tagged, overlap=False, models=(), fixes='{}', invs=[], props=PROPS, spec='TraceSpec', post='TraceAccepted', maxpend=64)
-    r = tlc.run('TSTableCrashTrace.tla', 'tr.cfg', tag=tag, files={'tr.cfg': cfg, 'trace.ndjson': trace_text}, workers=1, timeout=1200, keep=True)
+    # which variant of the write protocol does the tree implement: as pinned, or with the part directory fsync'ed once more
+    # before metadata.json is written?  (guess from the log; if the guess is rejected the other variant is tried)
+    sysv = [e for e in evs if e['ev'] == 'sys']
+    guess = any(b['op'] == 'create' and b['nm']['k'] == 'meta' and a['op'] == 'syncdir' and a['nm']['k'] == 'dir' and z['op'] != 'rename'
+                for z, a, b in zip(sysv, sysv[1:], sysv[2:]))
+    r = None
+    for synced_first in (guess, not guess):
+        if r is not None:
+            tlc.cleanup(r)
+        cfg = mc_cfg(batches=50, merges=50, files=files or ['meta.bin'], required=['meta.bin', 'primary.bin', 'timestamps.bin', 'fv.bin'],
+                     tt=tagged, overlap=False, models=(), fixes='{"syncdir-before-metadata"}' if synced_first else '{}', invs=[], props=PROPS,
+                     spec='TraceSpec', post='TraceAccepted', maxpend=64)
+        r = tlc.run('TSTableCrashTrace.tla', 'tr.cfg', tag=tag + ('s' if synced_first else 'p'), files={'tr.cfg': cfg, 'trace.ndjson': trace_text},
+                    workers=1, timeout=1200, keep=True)
+        if r.ok:
+            VARIANT['part directory fsynced before metadata.json' if synced_first else 'as pinned'] = VARIANT.get(
+                'part directory fsynced before metadata.json' if synced_first else 'as pinned', 0) + 1
+            break
+        if not first_try_both:
+            break
     oracle = []
     p = os.path.join(r.workdir, 'oracle.ndjson') if r.workdir else None
     if p and os.path.exists(p):
@@ -121,10 +141,10 @@ if c.replay:
 # ---------------- 1. design: TLC exhaustive ----------------
 if c.quick:
     designs = [('d1', dict(batches=3, merges=1, files=('a',), tt=False, overlap=False), 4),
-               ('d2', dict(batches=2, merges=1, files=('a',), tt=True, overlap=True), 2)]
+               ('d2', dict(batches=2, merges=1, files=('a',), tt=True, overlap=True, invs=[i for i in INVS if i != 'PendBounded']), 2)]
 else:
     designs = [('d1', dict(batches=3, merges=1, files=('a', 'b'), tt=False, overlap=False), 5),
-               ('d2', dict(batches=3, merges=1, files=('a',), tt=True, overlap=True), 5)]
+               ('d2', dict(batches=3, merges=1, files=('a',), tt=True, overlap=True, invs=[i for i in INVS if i != 'PendBounded']), 5)]
 # the protocol as pinned (no repair): counterexamples are hypotheses for step 3, not verdicts
 hyps = [('h-leftover', dict(batches=2, merges=0, files=('a',), tt=False, models=('kill9',), fixes='{}', invs=['LeftoversCleaned'], props=[]), 1),
         ('h-panic', dict(batches=2, merges=0, files=('a',), tt=False, models=('powerloss',), fixes='{"clean-root-tmp"}', invs=['OpensWithoutError'], props=[]), 1),
@@ -197,6 +217,8 @@ for r in results:
             stats[k] = max(stats.get(k, 0), v)
         else:
             stats[k] = stats.get(k, 0) + v
+if not stats.get('syscalls'):
+    c.inconclusive('the pkg/fs trace points are not in the tree (fixes/hook-fs.patch not applied): no file-system operation was logged')
 c.log('real code: %d histories x shapes, %d syscalls = %d crash points, %d images built, %d distinct images recovered with the real initTSTable' % (
     len(jobs), stats.get('syscalls', 0), stats.get('crash_points', 0), stats.get('images_built', 0), stats.get('images_recovered', 0)))
 
@@ -298,7 +320,7 @@ c.cov.update(
          '<= %d effects are pending); non-trivial = un-synced effects were pending at the crash point or the image is not the plain kill -9 one' % subset,
     histories=[j['hist'] for j in jobs[::2]], shapes=SHAPES, harness_stats=stats, design_runs=design_runs, action_coverage=action_cov,
     hypotheses_from_pinned_protocol=hypotheses, violations_reproduced=reproduced, binding_selftest_rejected=all(selftest.values()) if selftest else False,
-    binding_selftests=selftest, exhaustive=True, observations={'stale_older_manifest_kept_after_recovery': stats.get('observation_stale_manifest_kept', 0)},
+    binding_selftests=selftest, exhaustive=True, write_protocol_variant_observed=VARIANT, observations={'stale_older_manifest_kept_after_recovery': stats.get('observation_stale_manifest_kept', 0)},
     samples=samples)
 c.assumptions += [
     'file-system model (spec/CrashFS.tla): rename atomic; a dirent change (create, rename, unlink, mkdir, RemoveAll) is durable only after fsync of its directory and '
